@@ -310,6 +310,16 @@ func (fc *FnCtx) run() (err error) {
 		fc.entryOrder = append(fc.entryOrder, p.Name())
 		ei.Params = append(ei.Params, EntryParam{p.Name(), v})
 		s.assume(fc.typeAssume(v, fc.nalloc0, fc.nobj0))
+		// Go's type system also constrains the fields of the object a pointer parameter refers to
+		if v.K == VPtr {
+			if st, sname, ok := structOf(v.Typ); ok {
+				var cs []*Term
+				for i := 0; i < st.NumFields(); i++ {
+					cs = append(cs, fc.typeAssume(fc.loadFieldIn(s.heap, sname, st.Field(i), v.T), fc.nalloc0, fc.nobj0))
+				}
+				s.assume(mkImp(mkNot(mkEq(v.T, mkI(0))), mkAnd(cs...)))
+			}
+		}
 	}
 	for _, fv := range fn.FreeVars {
 		_ = fv
